@@ -569,7 +569,8 @@ lt(const T1& x, const T2& y) {
   PPL_DIRTY_TEMP(T1, tmp);
   Result r = assign_r(tmp, y, ROUND_UP);
   if (!result_representable(r)) {
-    return true;
+    // Either `y' is too big for T1 or it is not a number.
+    return result_class(r) != VC_NAN;
   }
   switch (result_relation(r)) {
   case VR_EQ:
@@ -595,7 +596,8 @@ le(const T1& x, const T2& y) {
   // if fpu supports inexact check.
   PPL_ASSERT(r != V_LE && r != V_GE && r != V_LGE);
   if (!result_representable(r)) {
-    return true;
+    // Either `y' is too big for T1 or it is not a number.
+    return result_class(r) != VC_NAN;
   }
   switch (result_relation(r)) {
   case VR_EQ:
